@@ -1,6 +1,7 @@
 import IsoVerif.Driver.Core
 import IsoVerif.Model.Regions
 import IsoVerif.Model.RegionsEdge
+import IsoVerif.Model.IntergenicFilter
 
 namespace IsoVerif.Driver.C05
 open Lean IsoVerif.Driver IsoVerif.Gen IsoVerif.Model.Regions
@@ -87,7 +88,14 @@ def jParams (j : Json) : Except String Params := do
 def ofStats (s : Stats) : Json :=
   Json.mkObj (AlignmentType.allMembers.map (fun t => (t.name, ofNat (s t))))
 
+/-- `{"aln": [start, stop, flags, mapq, rid], "exons": n, "trimmed": n}` -/
+def jIgAln (j : Json) : Except String IgAln := do
+  pure ⟨← jAln (← arg j "aln"), ← jNat (← arg j "exons"), ← jNat (← arg j "trimmed")⟩
+
 def ops : List (String × Handler) := [
+  ("intergenic_records", fun j => do
+      let l ← jList jIgAln (← arg j "alns")
+      pure (ofNatList ((intergenicRecords (← jParams (← arg j "params")) (← jInt (← arg j "cutoff")) l).map (fun a => a.aln.rid)))),
   ("bin", fun j => do pure (ofInt (bin (← jInt (← arg j "x"))))),
   ("storage", fun j => do pure (ofStore (buildStore (← jAlns (← arg j "alns"))))),
   ("not_adjacent", fun j => do
